@@ -9,9 +9,11 @@ open Relic Relic.Zip Relic.ZipOwn
 /-- all the parts `Sign` writes, as `NewFile` requests, in the order they are written -/
 def allMembers (hasPE : Bool) (ps : Parts) : List NewMember := partMembers hasPE ps ++ [sigMember ps]
 
-/-- the parts written before the signature need no ZIP64 extra field for their sizes -/
+/-- the sizes of the parts written before the signature fit the 64-bit fields of descriptor and ZIP64 extra (since fix
+    7d5f1c2 there is no 4 GiB limit any more: `WriteDirectory` leaves the directory as it was, so the directory hashed for
+    AXCD is the directory written, ZIP64 entries included) -/
 def PartsSmall (hasPE : Bool) (ps : Parts) : Prop :=
-  ∀ n ∈ partMembers hasPE ps, n.compd.length < u32Max ∧ n.usize < u32Max
+  ∀ n ∈ partMembers hasPE ps, n.compd.length < 2 ^ 64 ∧ n.usize < 2 ^ 64
 
 /-- the block map entry `Sign` appends for the new manifest -/
 def manifestBm (ps : Parts) : BmFile :=
@@ -47,8 +49,7 @@ theorem mem_payloadOf_special {fs : List File} {f : File} (h : f ∈ payloadOf f
 def Eall (g : Digested) (ps : Parts) : List File × Bytes := newEntries ps.mt ps.md (allMembers g.p.hasPE ps) g.patchStart
 def Eparts (g : Digested) (ps : Parts) : List File × Bytes := newEntries ps.mt ps.md (partMembers g.p.hasPE ps) g.patchStart
 
-theorem sign_setup {c : Codec} {z : Bytes} {ps : Parts} {r : Signed} (h : sign c z ps = .ok r)
-    (hsmall : ∀ g, digest c z = .ok g → PartsSmall g.p.hasPE ps) (hoff : r.sigOff ≤ u32Max) :
+theorem sign_setup {c : Codec} {z : Bytes} {ps : Parts} {r : Signed} (h : sign c z ps = .ok r) :
     ∃ (g : Digested) (d : Directory) (r1 : Rd), digest c z = .ok g ∧ assemble z g ps = .ok r ∧
       payloadPass c ⟨z, true, 0⟩ (payloadOf d.files) {} = .ok (g.p, r1) ∧
       (∀ f ∈ payloadOf d.files, Fresh f ∧ RawOk f ∧ seen f = f ∧ special f.name = false) ∧
@@ -89,25 +90,9 @@ theorem sign_setup {c : Codec} {z : Bytes} {ps : Parts} {r : Signed} (h : sign c
       simp only [Eall, allMembers, e1, Eparts, newEntries]
     have hE2 : (Eall g ps).2 = (Eparts g ps).2 ++ sigBytes ps := by
       simp only [Eall, allMembers, e2, Eparts, newEntries, sigBytes, List.append_nil]
-    -- no entry of the first directory gets a ZIP64 extra field
-    have hkeep : ∀ f ∈ (d4Of g ps).files, f.raw ≠ [] ∨ ¬ isBig f := by
-      intro f hf
-      rw [hd4f, List.mem_append] at hf
-      rcases hf with hf | hf
-      · exact Or.inl (s6 f hf)
-      · right
-        obtain ⟨n, hn, hfe, _, hlt⟩ := newEntries_mem ps.mt ps.md _ _ f hf
-        obtain ⟨q1, q2⟩ := hsmall g hg n hn
-        have hL := newBytes_length ps.mt ps.md n
-        rw [a4, hd4l] at hoff
-        have hoff' : g.patchStart + (newEntries ps.mt ps.md (partMembers g.p.hasPE ps) g.patchStart).2.length ≤ u32Max := hoff
-        unfold isBig
-        rw [hfe]
-        simp only [newEntryAt]
-        omega
     have hd5f : (d5Of g ps).files = g.p.outz.files ++ (Eall g ps).1 := by
       simp only [d5Of]
-      rw [headersOf_keep _ hkeep, hd4f, hd4l, hE1, List.append_assoc]
+      rw [headersOf_files, hd4f, hd4l, hE1, List.append_assoc]
     have hd5l : (d5Of g ps).dirLoc = g.patchStart + (Eall g ps).2.length := by
       simp only [d5Of]
       rw [hd4l, hE2, List.length_append]; omega
@@ -263,12 +248,12 @@ theorem newOk_all (b : Bool) (ps : Parts) (hman : ps.manifest.plain ≠ [])
       or_false, if_true, if_false, Bool.false_eq_true] at hn
     · rcases hn with rfl | rfl | rfl
       · simp only [] at hs ⊢
-        exact descWideOk_small (by omega) (by simpa using hman) (by omega)
+        exact descWideOk_stored (by simpa using hman)
       · exact hbmw
       · cases hud
     · rcases hn with rfl | rfl | rfl | rfl
       · simp only [] at hs ⊢
-        exact descWideOk_small (by omega) (by simpa using hman) (by omega)
+        exact descWideOk_stored (by simpa using hman)
       · exact hbmw
       · cases hud
       · cases hud
@@ -307,9 +292,8 @@ structure SignOk (c : Codec) (z : Bytes) (ps : Parts) (r : Signed) : Prop where
   /-- the manifest part is not empty, and the block map's 24-byte descriptor is recognised: F7a -/
   man : ps.manifest.plain ≠ []
   bmw : descWideOk ps.blockmap.compd.length ps.blockmap.plain.length
-  /-- no ZIP64 extra field on the regenerated parts (a second `WriteDirectory` would prepend it again) -/
+  /-- the sizes of the regenerated parts fit 64 bits -/
   small : ∀ g, digest c z = .ok g → PartsSmall g.p.hasPE ps
-  sigOff : r.sigOff ≤ u32Max
   sigLen : ps.signature.plain.length < 2 ^ 64
   out63 : r.out.length < 2 ^ 63
 
@@ -318,7 +302,7 @@ theorem verifyMeta_own {c : Codec} {z : Bytes} {ps : Parts} {r : Signed} (H : Si
     (happx : ∀ g, digest c z = .ok g → ∀ m ∈ g.p.members, endsWith m.file.name sAppx = false) :
     verifyMeta r.out = .ok (r.streams.axpc, r.streams.axcd) := by
   obtain ⟨g, d, r1, hg, hasm, hpass, hpay, hpos, hP, hfiles, hraw, hview, hd5f, hd5l, hd4f, hd4l, hE1, hE2, hout, hstr, _⟩ :=
-    sign_setup H.sign H.small H.sigOff
+    sign_setup H.sign
   have hsigc : ps.signature.compd.length < 2 ^ 64 := by
     have h1 := congrArg List.length hout
     have h2 := congrArg List.length hE2
@@ -448,7 +432,7 @@ theorem sign_then_verify {c : Codec} {z : Bytes} {ps : Parts} {r : Signed} (H : 
     verify c r.out r.streams (some r.bm) = .ok () := by
   have hvm := verifyMeta_own H happx
   obtain ⟨g, d, r1, hg, hasm, hpass, hpay, hpos, hP, hfiles, hraw, hview, hd5f, hd5l, hd4f, hd4l, hE1, hE2, hout, hstr, _⟩ :=
-    sign_setup H.sign H.small H.sigOff
+    sign_setup H.sign
   have hsigc : ps.signature.compd.length < 2 ^ 64 := by
     have h1 := congrArg List.length hout
     have h2 := congrArg List.length hE2
